@@ -87,6 +87,9 @@ func (s *storageAdapter) executeQuery(ctx context.Context) {
 	case promql.Matrix:
 		s.series = make([]engstore.SignedSeries, len(val))
 		for i, series := range val {
+			// The points belong to the remote query: an engine may reuse them
+			// once the query is closed (the Prometheus engine pools them).
+			series.Points = append(make([]promql.Point, 0, len(series.Points)), series.Points...)
 			s.series[i] = engstore.SignedSeries{
 				Signature: uint64(i),
 				Series:    promql.NewStorageSeries(series),
